@@ -134,6 +134,9 @@ def _has_quant(z):
     return r
 
 
+HYP_FILTERS = []  # [filter(eng, hyps, goal) -> sub-list of hyps], see pyvc/ext_C12.py (facts about an angle nobody looks at)
+
+
 class Engine:
     MAX_PATHS = 4000
 
@@ -217,6 +220,8 @@ class Engine:
             ft, ff = self.feasible(cz), self.feasible(z3.Not(cz))
             if ft != ff:
                 return ft
+            if not ft:
+                return True  # neither side is satisfiable: on this path the sequence has no position at all, the element is never evaluated
             raise Unsupported("control-flow on a symbolic value inside the element of a symbolic comprehension")
         if self.pos < len(self.trace):
             d = self.trace[self.pos]
@@ -266,8 +271,15 @@ class Engine:
             self.obligs.append(Oblig(name, [], z3.BoolVal(True), kind, note))
             return
         note = (note + " " if note else "") + (f"[variant {self.variant}]" if getattr(self, "variant", "") else "")
-        self.obligs.append(Oblig(name, list(self.pc), goal, kind, note))
-        self.pc.append(goal)
+        bf = getattr(self, "backend_first", None)  # contract option: "cvc5" (every obligation of the carrier) or a list of label substrings
+        if bf == "cvc5" or (isinstance(bf, (list, tuple)) and any(x in name for x in bf)):
+            note += " [cvc5-first]"
+        hyps = list(self.pc)
+        for flt in HYP_FILTERS:  # an extension may DROP hypotheses that cannot matter for this goal (fewer hypotheses: always sound)
+            hyps = flt(self, hyps, goal)
+        self.obligs.append(Oblig(name, hyps, goal, kind, note))
+        if not z3.is_false(g):  # a goal that is literally False (a forbidden write, an unexpected exception) is reported, not assumed:
+            self.pc.append(goal)  # the rest of the path is then still checked against a consistent path condition
 
     def visible_vars(self):
         d = {}
@@ -289,6 +301,8 @@ class Engine:
             r = hook(self, v)
             if r is not NotImplemented:
                 return r
+        if hasattr(v, "__pyvc_truth__"):  # extension values with their own truthiness (abstract strings: non-empty)
+            return v.__pyvc_truth__(self)
         if isinstance(v, z3.ExprRef):
             return self.sbool(v) if z3.is_bool(v) else self.sbool(v != 0)
         if isinstance(v, Sym):
@@ -313,6 +327,8 @@ class Engine:
             return True
         if isinstance(v, Fraction):
             return v != 0
+        if hasattr(v, "__pyvc_truth__"):  # extension values (pyvc/ext_*.py) with their own truth value (e.g. symbolic strings)
+            return v.__pyvc_truth__(self)
         return bool(v)
 
     def sbool(self, z):
@@ -370,7 +386,7 @@ class Engine:
             return self.snum(za / zb, "real")
         if isinstance(op, (ast.FloorDiv, ast.Mod)):
             if k != "int":
-                raise Unsupported("floor division / modulo on reals")
+                return self.real_floordiv_mod(op, za, zb)
             if not isinstance(b, int) or b <= 0:
                 if not self.spec_mode:
                     self.prove(self.site("div-positive"), zb > 0, "safety")
@@ -378,6 +394,26 @@ class Engine:
         if isinstance(op, ast.Pow):
             return self.power(a, b)
         raise Unsupported(f"binop {type(op).__name__}")
+
+    @staticmethod
+    def real_divmod_key(za, zb):
+        """ghost table key of the integer quotient of za by zb: one quotient per pair of (simplified) operand terms"""
+        return ("real-divmod", z3.simplify(za).sexpr(), z3.simplify(zb).sexpr())
+
+    def real_floordiv_mod(self, op, za, zb):
+        """a // b and a % b on floats, over the reals (Python / numpy floor semantics): a = b*q + r with q an INTEGER and r between 0
+        (inclusive) and b (exclusive), i.e. r has the sign of the divisor.  q is a fresh integer constant defined by these bounds
+        (it exists and is unique for b != 0); b != 0 is a safety obligation."""
+        self.check_nonzero(zb)
+        key = self.real_divmod_key(za, zb)
+        if key not in self.ghost:
+            q = z3.Int(fresh_name("quot"))
+            r = za - zb * z3.ToReal(q)
+            self.assume(z3.And(z3.Implies(zb > 0, z3.And(r >= 0, r < zb)), z3.Implies(zb < 0, z3.And(r <= 0, r > zb))))
+            self.assumptions.add("float // and % over the reals: a = b*q + r, q integer, 0 <= r < b (b > 0) or b < r <= 0 (b < 0); rounding of the quotient ignored")
+            self.ghost[key] = (q, r)
+        q, r = self.ghost[key]
+        return self.snum(z3.ToReal(q) if isinstance(op, ast.FloorDiv) else r, "real")
 
     def _conc_binop(self, op, a, b, ka, kb):
         realish = "real" in (ka, kb)
